@@ -46,3 +46,29 @@ package ipfscluster
 //@   ensures err == nil && res != nil && len(currentValidMetrics) > rplMax ==> sub(elems(res), dom(currentValidMetrics)) && len(res) == rplMax
 //@   ensures err != nil ==> res == nil
 //@   modifies nothing
+
+//@ spec func healthy(m *api.Metric) bool = m != nil && m.Valid
+//@ spec func hasMetric(ms []*api.Metric, n int, p peer.ID) bool = exists k int :: 0 <= k && k < n && ms[k].Peer == p
+
+//@ interface PeerMonitor.LatestMetrics(ctx, name)
+//@   property C03
+//@   ensures forall i int :: 0 <= i && i < len(res) ==> res[i] != nil
+//@   modifies nothing
+
+//@ interface Informer.Name()
+//@   modifies nothing
+
+//@ func (c *Cluster) allocate
+//@   property C03
+//@   requires validFactors(rplMin, rplMax)
+//@   loop 1 (range metrics)
+//@     invariant forall p peer.ID :: in(p, dom(currentMetrics)) <==> (!in(p, elems(blacklist)) && in(p, elems(currentAllocs)) && hasMetric(metrics, idx1, p))
+//@     invariant forall p peer.ID :: in(p, dom(priorityMetrics)) <==> (!in(p, elems(blacklist)) && !in(p, elems(currentAllocs)) && in(p, elems(prioritylist)) && hasMetric(metrics, idx1, p))
+//@     invariant forall p peer.ID :: in(p, dom(candidatesMetrics)) <==> (!in(p, elems(blacklist)) && !in(p, elems(currentAllocs)) && !in(p, elems(prioritylist)) && hasMetric(metrics, idx1, p))
+//@   ensures rplMin < 0 ==> err == nil && len(res) == 0
+//@   ensures [current-healthy] rplMin > 0 ==> forall p peer.ID :: in(p, dom(currentMetrics)) <==> (!in(p, elems(blacklist)) && in(p, elems(currentAllocs)) && hasMetric(metrics, len(metrics), p))
+//@   ensures [new-only-healthy] rplMin > 0 && err == nil ==> forall p peer.ID :: in(p, elems(res)) && !in(p, elems(currentAllocs)) ==> hasMetric(metrics, len(metrics), p) && !in(p, elems(blacklist))
+//@   ensures [keeps-healthy] rplMin > 0 && err == nil && len(currentMetrics) <= rplMax ==> sub(dom(currentMetrics), elems(res))
+//@   ensures [min-max] rplMin > 0 && err == nil ==> (distinct(res) && rplMin <= len(res) && len(res) <= rplMax && (forall p peer.ID :: in(p, elems(res)) ==> hasMetric(metrics, len(metrics), p) && !in(p, elems(blacklist)))) || (res == currentAllocs && rplMin <= len(currentMetrics) && len(currentMetrics) <= rplMax)
+//@   ensures [fail-nil] err != nil ==> res == nil
+//@   modifies nothing
